@@ -56,6 +56,24 @@ def respell(tok, rnd):
     return s if float(s) == v else tok
 
 
+def shuffle_keeping_equal_keys(lines, nkey, rnd):
+    """a random order of the lines of one block in which lines assigning the same key keep their relative order (the later one still wins);
+    blank and comment lines travel as they are"""
+    def key(l):
+        t = l.split("#")[0].split()
+        return tuple(t[:nkey]) if len(t) > nkey else None
+    idx = list(range(len(lines)))
+    rnd.shuffle(idx)
+    groups = {}
+    for i in idx:
+        groups.setdefault(key(lines[i]), []).append(i)
+    for k, g in groups.items():
+        if k is not None:
+            for slot, i in zip(sorted(idx.index(j) for j in g), sorted(g)):
+                idx[slot] = i
+    return [lines[i] for i in idx]
+
+
 def rewrite(text, fmt, rnd):
     """a layout-preserving rewrite: same set of effective (block, key) -> value assignments"""
     blocks = split_blocks(text)
@@ -116,6 +134,7 @@ def rewrite(text, fmt, rnd):
                 lines.append(rnd.choice(["", "# a comment line", "   ", "#"]))
         for e in extra:
             lines.insert(rnd.randrange(1, len(lines) + 1), e)
+        lines = [lines[0]] + shuffle_keeping_equal_keys(lines[1:], 2 if ismat else 1, rnd)
         out.append(lines)
     # foreign blocks
     for _ in range(rnd.randrange(3)):
@@ -247,7 +266,14 @@ def run(chk):
                     os.remove(p0)
                 runs = []
                 for un in (0, 1):
-                    t2 = cli.config_block(0, 2, 1, 0, 0, un, 1) + vt
+                    # one configuration per file (loop order, resummation, running couplings vary from file to file); for a rewrite the entries come in another order
+                    frnd = random.Random(idx * 7 + 1)
+                    cfgl = cli.config_block(0, frnd.randrange(3), frnd.randrange(2), 0, 0, un, frnd.randrange(2)).rstrip("\n").split("\n")
+                    if kind == "rewrite":
+                        body = cfgl[1:]
+                        random.Random(idx * 31 + vi * 7 + un).shuffle(body)
+                        cfgl = [cfgl[0]] + body
+                    t2 = "\n".join(cfgl) + "\n" + vt
                     via_stdin = kind == "rewrite" and (idx + vi + un) % 3 == 0   # the rewrite through standard input instead of a file: same content, same result
                     runs.append(cli.run_cli(binary, fmt, t2, workdir=d, name="r_%d_%d_%d.in" % (idx, vi, un), use_stdin=via_stdin))
                     if runs[-1]["path"]:
